@@ -112,6 +112,28 @@ Theorem C15_hash_binding_refuted :
 Proof. exact: refuted_run. Qed.
 Print Assumptions C15_hash_binding_refuted.
 
+(* Boundary of C15_set_valid: "registered sign key" is the round's only notion of membership, and
+   the node registers keys from self-signed messages without checking the sender against the group's
+   member list or the key against the member (group_create.OnMessageSignPK; confirmed on the node,
+   listed as known findings C15/registered-key:...).  With the hash comparison in place, over Z mod 101,
+   group 1,2,3, threshold 2, group signature 35: (a) a registered non-member id 4 gets its share
+   admitted, 6 is recovered, the party ends in error with honest 2 and 3 delivered; (b) a key
+   registered under member 2's id first makes the squatter's share count and member 2's valid share
+   fail.  The positive theorems above exclude this by the hypothesis that the table holds exactly the
+   key-generation keys of the ids it lists. *)
+Theorem C15_registered_key_is_not_membership_refuted :
+  g_map (st_g (p_st (fst (zrun renv_outsider [:: outsider4; honest2; honest3])))) = [:: (4, 350); (2, 77)]%ZZ /\
+  g_sig (st_g (p_st (fst (zrun renv_outsider [:: outsider4; honest2; honest3])))) = Some 6%ZZ /\
+  zveq rq 6 (5 * zH rhs 0) = false /\
+  snd (zrun renv_outsider [:: outsider4; honest2; honest3]) =
+    [:: (OAdded, TNone); (ORecovered, TErrG); (OClosed, TNone)] /\
+  snd (zrun renv_squat [:: squatter2; honest2; honest3]) =
+    [:: (OAdded, TNone); (OBadSign, TNone); (ORecovered, TErrG)] /\
+  g_map (st_g (p_st (fst (zrun renv_squat [:: squatter2; honest2; honest3])))) = [:: (2, 420); (3, 98)]%ZZ /\
+  zveq rq 420 (11 * zH rhs 0) = false.
+Proof. exact: registered_key_run. Qed.
+Print Assumptions C15_registered_key_is_not_membership_refuted.
+
 (* The handler without the comparison is correct exactly under the guard the repair enforces: on
    messages that all claim the block hash it behaves as the repaired one. *)
 Theorem C15_unbound_handler_guarded :
